@@ -123,6 +123,52 @@ type spaces struct {
 	zone    define.ISpace
 	simple  define.ISpace
 	present map[int64]bool
+	at      map[int64][3]int64 // where the ZoneSpace was last told each entity is (1/8 units)
+}
+
+// creep: one OMove in three is carried out on the ZoneSpace as a PATH of sub-millimetre steps
+// (1/2048 of a unit, exactly representable) from where the entity is to the target, instead of
+// one call.  Both are histories of UpdateEntityPos calls ending at the same position; by the
+// refinement theorem (zone search = brute force over the current positions, for all histories)
+// every later search must answer the same.  Decided from the op alone, so that replays are exact.
+func creeps(id, x, y, z int64) bool { return (id+x+z)%3 == 0 }
+
+func (sp *spaces) moveZone(id int64, x, y, z int64) (crept bool) {
+	from, ok := sp.at[id]
+	to := [3]int64{x, y, z}
+	if sp.at == nil {
+		sp.at = map[int64][3]int64{}
+	}
+	defer func() { sp.at[id] = to }()
+	dist := int64(0)
+	for k := 0; k < 3; k++ {
+		d := to[k] - from[k]
+		if d < 0 {
+			d = -d
+		}
+		dist += d
+	}
+	if !ok || !sp.present[id] || !creeps(id, x, y, z) || dist == 0 || dist > 40 {
+		sp.zone.UpdateEntityPos(entity.EntityID(id), pos8(x, y, z))
+		return false
+	}
+	cur := [3]float32{u8(from[0]), u8(from[1]), u8(from[2])}
+	const step = float32(1) / 2048
+	for k := 0; k < 3; k++ {
+		n := (to[k] - from[k]) * 256 // 1/8 unit = 256 steps
+		st := step
+		if n < 0 {
+			n, st = -n, -step
+		}
+		for i := int64(0); i < n; i++ {
+			cur[k] += st
+			sp.zone.UpdateEntityPos(entity.EntityID(id), define.Pos{X: cur[0], Y: cur[1], Z: cur[2]})
+		}
+	}
+	if cur != [3]float32{u8(x), u8(y), u8(z)} {
+		panic("c20: creep path did not end at the target (float32 steps not exact)")
+	}
+	return true
 }
 
 func freshDefault() *spaces {
@@ -184,6 +230,10 @@ func Exec(ops []hx.T) (obs []any, nontrivial bool, tags map[string]bool) {
 				if !sp.present[id] {
 					sp.simple.AddEntity(entity.EntityID(id), p)
 					sp.present[id] = true
+					if sp.at == nil {
+						sp.at = map[int64][3]int64{}
+					}
+					sp.at[id] = [3]int64{o.Int(1), o.Int(2), o.Int(3)}
 				} else {
 					tags["dup-add"] = true
 				}
@@ -191,7 +241,9 @@ func Exec(ops []hx.T) (obs []any, nontrivial bool, tags map[string]bool) {
 			case "OMove":
 				id := o.Int(0)
 				p := pos8(o.Int(1), o.Int(2), o.Int(3))
-				sp.zone.UpdateEntityPos(entity.EntityID(id), p)
+				if sp.moveZone(id, o.Int(1), o.Int(2), o.Int(3)) {
+					tags["move-as-submillimetre-path"] = true
+				}
 				sp.simple.UpdateEntityPos(entity.EntityID(id), p)
 				obs = append(obs, "BUnit")
 			case "ORemove":
@@ -199,6 +251,7 @@ func Exec(ops []hx.T) (obs []any, nontrivial bool, tags map[string]bool) {
 				sp.zone.RemoveEntity(entity.EntityID(id))
 				sp.simple.RemoveEntity(entity.EntityID(id))
 				delete(sp.present, id)
+				delete(sp.at, id)
 				obs = append(obs, "BUnit")
 			case "OSearch":
 				p := pos8(o.Int(0), o.Int(1), o.Int(2))
